@@ -112,6 +112,7 @@ Proof.
       destruct p; cbn in *; subst; reflexivity.
   - apply andb_true_iff in Hprice as [Hprice Hkind]. apply andb_true_iff in Hprice as [Hprice Hfta].
     apply andb_true_iff in Hprice as [Hc1 Hc2].
+    apply comm_ok_inv in Hc1 as [Hc1 _]. apply comm_ok_inv in Hc2 as [Hc2 _].
     destruct (ident_ok_inv _ Hc1) as (a0 & ar & Ea & _ & _).
     destruct (ident_ok_inv _ Hc2) as (b0 & br & Eb & _ & _).
     assert (Hn1 : is_nil (p_comm p) = false) by (rewrite Ea; reflexivity).
@@ -241,6 +242,7 @@ Proof.
   unfold posting_price_b, price_part. destruct (is_nil (p_txn_comm p)); [reflexivity|].
   destruct (str_eqb _ _); [reflexivity|]. intro H.
   apply andb_true_iff in H as [H _]. apply andb_true_iff in H as [H _]. apply andb_true_iff in H as [_ Hc2].
+  apply comm_ok_inv in Hc2 as [Hc2 _].
   pose proof (ident_no_eol _ Hc2) as Htc.
   destruct (p_total p).
   - cbn [app]. rewrite !no_eol_cons, no_eol_app, no_eol_cons, print_dec_no_eol, Htc. reflexivity.
@@ -260,6 +262,7 @@ Proof.
     rewrite (join_colon_no_eol _ Hname), print_dec_no_eol, (price_part_no_eol _ Hprice).
     assert (Hc : no_eol (if is_nil (p_comm (jp_p jp)) then [] else 32%N :: p_comm (jp_p jp)) = true).
     { destruct (is_nil (p_comm (jp_p jp))) eqn:En; [reflexivity|]. cbn [orb] in Hcomm.
+      apply comm_ok_inv in Hcomm as [Hcomm _].
       rewrite no_eol_cons, (ident_no_eol _ Hcomm). reflexivity. }
     rewrite Hc.
     assert (Hcp : no_eol (cpart (jp_comment jp)) = true).
